@@ -154,6 +154,7 @@ type c35Report struct {
 	ThresholdPoss  bool      `json:"threshold_poss"`  // the batch size was reached by the number of buffered items at least once
 	Overlap        int       `json:"overlap"`         // recorder calls that saw another goroutine inside a recorder call
 	FlushOverlap   int       `json:"flush_overlap"`   // … where one of the two was an explicit Flush
+	Interleaved    int       `json:"interleaved"`     // recorder calls of a goroutine that were not adjacent (in call order) to its previous call: another goroutine's call came in between
 	Locations      int       `json:"locations"`       // rows of the location table
 	TablesWithRows int       `json:"tables_with_rows"`
 	Rejected       []string  `json:"rejected,omitempty"` // special classes the storage layer refused loudly
@@ -212,17 +213,25 @@ func c35Execute(c c35Case, dir string, special bool) c35Report {
 	created := make([]bool, len(c.Tables))
 
 	var inCall, inFlush atomic.Int32
-	var overlap, flushOverlap, flushes, nIns atomic.Int64
+	var overlap, flushOverlap, flushes, nIns, seq, interleaved atomic.Int64
 	var failMu sync.Mutex
 	broken := atomic.Bool{}
 
 	runThread := func(ops []c35Op, concurrent bool) {
+		last := int64(-1)
 		for _, op := range ops {
 			if broken.Load() {
 				return
 			}
 			for i := 0; i < op.Yield; i++ {
 				runtime.Gosched()
+			}
+			if op.Op != "create" {
+				tk := seq.Add(1)
+				if concurrent && last >= 0 && tk != last+1 {
+					interleaved.Add(1)
+				}
+				last = tk
 			}
 			var ok bool
 			var sig, msg string
@@ -313,6 +322,7 @@ func c35Execute(c c35Case, dir string, special bool) c35Report {
 	rep.Flushes = int(flushes.Load())
 	rep.Overlap = int(overlap.Load())
 	rep.FlushOverlap = int(flushOverlap.Load())
+	rep.Interleaved = int(interleaved.Load())
 
 	type closeRes struct {
 		ok       bool
